@@ -137,9 +137,12 @@ func patchFunc(base []resolve.RequirementVersion, nVulns int, introduce bool, im
 // VerifPatches: ComputePatches returns the same sorted, de-duplicated list under every schedule.
 func VerifPatches() {
 	nVulns := verifrt.Param("vulns")
-	introduce := verifrt.Choice("introduces-a-vulnerability", 2) == 1
-	group := verifrt.Choice("group-introduced", 2) == 1
-	impossible := verifrt.Choice("impossible", nVulns+1) // 0 = none
+	introduce, group, impossible := false, false, 0
+	if verifrt.Param("variants") == 1 {
+		introduce = verifrt.Choice("introduces-a-vulnerability", 2) == 1
+		group = verifrt.Choice("group-introduced", 2) == 1
+		impossible = verifrt.Choice("impossible", nVulns+1) // 0 = none
+	}
 	base := []resolve.RequirementVersion{req("a", "1.0.0"), req("b", "1.0.0"), req("c", "1.0.0")}
 	orig := resolved(base, []string{"V1", "V2", "V3"}[:nVulns]...)
 	fn := patchFunc(base, nVulns, introduce, impossible)
